@@ -443,8 +443,17 @@ def _atoms(ctx, fn, ev, pm):
                 if isinstance(t.ops[0], ast.In) == tv:
                     atoms.extend(_membership(ctx, fn, ev, me, t.comparators[0], None, pm))
                     continue
-            # modular interval
-            ig = _interval_guard(fn, ev, t, pm) if tv else None
+            # modular interval (a negated one-sided test is the complementary interval)
+            ig = _interval_guard(fn, ev, t, pm)
+            if ig is not None and not tv:
+                inner_, lo_, hi_ = ig
+                top = Lin.sym('M') - 1
+                if lo_ == Lin(0) and hi_ != top:
+                    ig = (inner_, hi_ + 1, top)
+                elif hi_ == top and lo_ != Lin(0):
+                    ig = (inner_, Lin(0), lo_ - 1)
+                else:
+                    ig = None
             if ig is not None:
                 inner, lo, hi = ig
                 # which parties does inner mention?
@@ -553,13 +562,42 @@ def branch_key(fn, st, pm):
     return tuple((cnorm(i.test), br) for i, br in astq.enclosing_ifs(st, pm, stop=fn.node))
 
 
+def _self_membership_test(t):
+    """`self.pid in L` / `self.pid not in L` (possibly negated): a test on the evaluating party itself, not on the form of the arguments"""
+    if isinstance(t, ast.UnaryOp) and isinstance(t.op, ast.Not):
+        t = t.operand
+    return isinstance(t, ast.Compare) and len(t.ops) == 1 and isinstance(t.ops[0], (ast.In, ast.NotIn)) and is_self(t.left)
+
+
 def case_values(fn, name, use, pm):
     """{branch key: value expr} for a name defined once in each of several exclusive branches."""
-    out = {}
+    ds = []
     for st, v, how in reaching_definitions(fn.node, name, use, pm):
         if how != 'assign' or v is None:
             return None
-        out[branch_key(fn, st, pm)] = (v, st)
+        ds.append((v, st, st))
+    # `if C: name = A  else: name = B` (both the only definitions in the two branches of one `if`) is `name = A if C else B`
+    # defined where that `if` stands
+    changed = True
+    while changed:
+        changed = False
+        for i, (va, sa, pa_) in enumerate(ds):
+            for j, (vb, sb, pb_) in enumerate(ds):
+                if i < j:
+                    qa, qb = pm.get(id(pa_)), pm.get(id(pb_))
+                    if qa is qb and isinstance(qa, ast.If) and _self_membership_test(qa.test):
+                        ina, inb = any(pa_ is s_ for s_ in qa.body), any(pb_ is s_ for s_ in qa.body)
+                        if ina != inb:
+                            a, b = (va, vb) if ina else (vb, va)
+                            ds[i] = (ast.IfExp(test=qa.test, body=a, orelse=b), qa, qa)
+                            del ds[j]
+                            changed = True
+                            break
+            if changed:
+                break
+    out = {}
+    for v, st, at in ds:
+        out[branch_key(fn, at, pm)] = (v, st)
     return out
 
 
